@@ -31,8 +31,9 @@ func init() {
 			}
 			return c08EnumCases + 12000
 		},
-		Run:      runC08,
-		Required: []string{"handler_calls_checked", "pongs_checked", "close_echoes_checked", "control_between_fragments", "concurrent_pong_runs", "connections_built_by_dial_with_frames_behind_the_reply"},
+		Run:          runC08,
+		BeatTimeoutS: 90,
+		Required:     []string{"handler_calls_checked", "pongs_checked", "close_echoes_checked", "control_between_fragments", "concurrent_pong_runs", "connections_built_by_dial_with_frames_behind_the_reply", "streams_read_under_an_exactly_sufficient_read_limit"},
 		Assumptions: []string{
 			"pong and close echoes of the default handlers are demanded because nothing else holds the write lock in these single-goroutine executions",
 			"byte-level ordering of handler calls relative to delivered data is judged for uncompressed messages; for compressed messages at message granularity",
@@ -202,6 +203,24 @@ func c08ExecH(ctx *core.Ctx, out *core.Out, st *Stream, ex rdExec, failAt int, h
 	} else {
 		nc = xport.New(chunks)
 		c = ws.VerifNewConn(nc, ex.Server, ex.RB, 256, nil, nil, ex.Comp)
+	}
+	if ctx.Idx%5 == 2 {
+		// a read limit that every message of the stream meets exactly or with room to spare:
+		// control frames are not counted against it
+		var limit int64 = 1
+		for _, d := range st.DataEvents() {
+			var sum int64
+			for fi := d.First; fi <= d.Last; fi++ {
+				if !st.Frames[fi].IsControl() {
+					sum += int64(len(st.Frames[fi].Payload))
+				}
+			}
+			if sum > limit {
+				limit = sum
+			}
+		}
+		c.SetReadLimit(limit)
+		out.Count("streams_read_under_an_exactly_sufficient_read_limit", 1)
 	}
 	switch hist {
 	case 1:
